@@ -1,6 +1,6 @@
 CONSTANTS WeekLen = 2016  Accept = 432  RotTrigger = 3200  CatchUpBound = 4000  CapPct = 135
  Defects = {}
- Strict = {"RecvReport", "Http", "Close", "Authorize", "AuthorizeServer", "ImpactSet", "UDPPairing"}
+ Strict = {"RecvReport", "Http", "Close", "Authorize", "AuthorizeServer", "ImpactSet", "UDPPairing", "Start", "Rotate"}
  InvSel = {"IndexInBounds"}
  DiagLine = @DiagLine@
 SPECIFICATION TSpec
